@@ -353,7 +353,7 @@ class Parser:
     if k == "sys":
       if v not in ("$signed", "$unsigned"): raise Unsupported(f"system function {v}")
       self.eat("("); e = self.expr(); self.eat(")")
-      return ("signed", e) if v == "$signed" else e
+      return ("signed", e) if v == "$signed" else ("unsigned", e)
     if k == "id":
       if v in RESERVED: raise SvSyntaxError(f"reserved word {v!r} used as identifier ({self._ctx()})")
       return self.postfix(("id", v))
